@@ -5,6 +5,7 @@ import (
 	"os"
 	"os/exec"
 	"path/filepath"
+	"runtime"
 	"strings"
 	"syscall"
 
@@ -118,13 +119,15 @@ func writeImportFixtures(d string) error {
 // reports it as an `adapter-crash` failure instead of running it. Generation is a function of
 // the seed, so the repeated run sees the same cases.
 func supervise(exe string, args, env []string, d string) {
-	var crashed []string
+	runtime.LockOSThread() // Pdeathsig is tied to the forking thread
+	var crashed, hung []string
 	for attempt := 0; ; attempt++ {
 		os.Remove(filepath.Join(d, "current"))
 		cmd := exec.Command(exe, args[1:]...)
 		cmd.Dir = filepath.Join(d, "cwd")
-		cmd.Env = append(append([]string{}, env...), "C16_CRASHED="+strings.Join(crashed, ","))
+		cmd.Env = append(append([]string{}, env...), "C16_CRASHED="+strings.Join(crashed, ","), "C16_HUNG="+strings.Join(hung, ","))
 		cmd.Stdin, cmd.Stdout, cmd.Stderr = os.Stdin, os.Stdout, os.Stderr
+		cmd.SysProcAttr = &syscall.SysProcAttr{Pdeathsig: syscall.SIGKILL} // never outlive the supervisor
 		err := cmd.Run()
 		if err == nil {
 			os.RemoveAll(d)
@@ -135,7 +138,14 @@ func supervise(exe string, args, env []string, d string) {
 		if ee, ok := err.(*exec.ExitError); ok && ee.ExitCode() >= 0 {
 			code = ee.ExitCode()
 		}
-		if rerr != nil || len(cur) == 0 || attempt >= 8 || code == 2 {
+		if code == hangExit && rerr == nil && len(cur) > 0 && attempt < 12 {
+			// an adaptation did not terminate: its goroutine cannot be stopped, so the child
+			// gave up; run again, reporting that case as a hang without running it
+			hung = append(hung, string(cur))
+			cleanDir(filepath.Join(d, "cwd"))
+			continue
+		}
+		if rerr != nil || len(cur) == 0 || attempt >= 12 || code == 2 {
 			// not attributable to a case (usage error, I/O problem) or too many crashes
 			if tail, e := os.ReadFile(filepath.Join(d, "stderr.log")); e == nil {
 				if len(tail) > 4000 {
@@ -179,35 +189,69 @@ func cleanDir(dir string) {
 
 var (
 	crashedSet map[string]bool
+	hungSet    map[string]bool
 	lastCrash  string
+	curHash    string
 )
 
-// noteCase records the case about to run; it returns true if an earlier attempt died on it.
-func noteCase(line string) bool {
+// hangExit: exit status of a child that met a non-terminating adaptation.
+const hangExit = 75
+
+// maxRestarts: after that many crashed/hung cases the run continues in degraded mode (cases
+// that run the adapter are skipped) — the failures found so far are what the run reports.
+const maxRestarts = 5
+
+func degraded() bool { return len(crashedSet)+len(hungSet) >= maxRestarts }
+
+// hangDetected is called when an adaptation exceeded its timeout.
+func hangDetected() {
+	if privRoot == "" || curHash == "" || degraded() {
+		return // unsupervised or out of restarts: go on with the goroutine leaked
+	}
+	os.Exit(hangExit)
+}
+
+func parseSet(v string) map[string]bool {
+	m := map[string]bool{}
+	for _, c := range strings.Split(v, ",") {
+		if c != "" {
+			m[c] = true
+		}
+	}
+	return m
+}
+
+// noteCase records the case about to run; it returns "crash" / "hang" if an earlier attempt
+// died / hung on it, "skip" in degraded mode, "" otherwise.
+func noteCase(line string) string {
 	if privRoot == "" {
-		return false
+		return ""
 	}
 	h := fmt.Sprintf("%016x", hashStr(line)^uint64(len(line))<<48)
 	if crashedSet == nil {
-		crashedSet = map[string]bool{}
-		for _, c := range strings.Split(os.Getenv("C16_CRASHED"), ",") {
-			if c != "" {
-				crashedSet[c] = true
-			}
-		}
+		crashedSet = parseSet(os.Getenv("C16_CRASHED"))
+		hungSet = parseSet(os.Getenv("C16_HUNG"))
 	}
 	if crashedSet[h] {
 		if b, err := os.ReadFile(filepath.Join(privRoot, "crash-"+h)); err == nil {
 			lastCrash = string(b)
 		}
-		return true
+		return "crash"
 	}
+	if hungSet[h] {
+		return "hang"
+	}
+	if degraded() {
+		return "skip"
+	}
+	curHash = h
 	os.WriteFile(filepath.Join(privRoot, "current"), []byte(h), 0o644)
-	return false
+	return ""
 }
 
 func caseDone() {
 	if privRoot != "" {
+		curHash = ""
 		os.Remove(filepath.Join(privRoot, "current"))
 	}
 }
